@@ -123,7 +123,9 @@ class AdaptiveAdapter(Adapter):
                     from physt.histogram_collection import HistogramCollection
                     from physt.binnings import FixedWidthBinning
                     g = self._g(0)
-                    o["_coll"] = HistogramCollection(binning=FixedWidthBinning(bin_width=g.w, bin_shift=g.s, bin_count=0, adaptive=True))
+                    # the collection is a copy of an empty template: whatever happens to it, the template keeps its (no) bins
+                    o["_tmpl"] = HistogramCollection(binning=FixedWidthBinning(bin_width=g.w, bin_shift=g.s, bin_count=0, adaptive=True))
+                    o["_coll"] = o["_tmpl"].copy()
                 data = [self._point(e[0], e[1])[0] for e in batch]
                 w = [self._w(e[2]) for e in batch] if (any(e[2] != 1 for e in batch) or self.wden != 1) else None
                 o[k] = o["_coll"].create(f"m{k}", data, weights=w)
@@ -289,7 +291,7 @@ class AdaptiveAdapter(Adapter):
             return Mismatch(["accepted"], {"raised": obs["exc"]})
         pool = fmap(post["pool"])
         live = {i for i, r in pool.items() if "null" not in r}
-        if {k_ for k_ in real.keys() if k_ != "_coll"} != live:
+        if {k_ for k_ in real.keys() if not str(k_).startswith("_")} != live:
             bad.append("live")
         if action == "Fill" and "ret" in view:
             i, cell, cls, w = args
@@ -303,7 +305,11 @@ class AdaptiveAdapter(Adapter):
             if gotn != exp:
                 bad.append("ret")
                 det["ret"] = {"expected": exp, "observed": repr(got)}
-        for i in sorted(live & {k_ for k_ in real.keys() if k_ != "_coll"}):
+        if "_tmpl" in real and (real["_tmpl"].binning.bin_count != 0 or len(real["_tmpl"]) != 0):
+            bad.append("template")
+            det["template"] = {"expected": "the copied-from empty collection keeps 0 bins and 0 members",
+                               "observed": {"bin_count": int(real["_tmpl"].binning.bin_count), "members": len(real["_tmpl"])}}
+        for i in sorted(live & {k_ for k_ in real.keys() if not str(k_).startswith("_")}):
             rec = pool[i]
             grids = [self._g(a) for a in range(len(rec["axes"]))]
             if rec.get("proj") is not None:
